@@ -102,6 +102,7 @@ def check_image(ctx, img_path, n, flav, known=None, label="mkimage", meta=None):
             L.append("seek 0 %d" % off)
             L.append("read 0 %d" % ln)
             reqs.append((len(L), off, ln))
+            L.append("hstate 0")
         # every data block of the file is reached by a seek of its own (wherever the writer put it: block 2, the last block ...)
         bs_ = 512 if flav & 1 else 488
         nblk = (size + bs_ - 1) // bs_
@@ -194,6 +195,9 @@ def check_image(ctx, img_path, n, flav, known=None, label="mkimage", meta=None):
                          expected=fnv(content[eo:eo + en]), actual=d.get("fnv"))
             elif content is None and eo == 0 and en == size and d.get("fnv") != f["fnv"]:
                 ctx.fail("oracle", "whole-file read differs from the decoder's content", dict(inp, script=L, path="/".join(p)), expected=f["fnv"], actual=d.get("fnv"))
+    # the file handle model on an image ADFlib did not write (Props/Properties_C06.v: open_image / read_image_slice): the model, loaded with the
+    # blocks the file's tables lead to, is run on the same open / seek / read calls; results and struct AdfFile fields must agree
+    model_tie(ctx, img_path, flav, reads, res, inp, L)
     for (li, kind, tgt) in link_checks:
         r = (res.get(li) or ["?"])
         if kind == "file":
@@ -205,6 +209,59 @@ def check_image(ctx, img_path, n, flav, known=None, label="mkimage", meta=None):
             exp = sorted(p[-1] for p in dtree if p[:-1] == tgt)
             if names != exp:
                 ctx.fail("oracle", "listing through a hard link to a directory differs from the target directory", dict(inp, script=L), expected=exp, actual=names)
+
+
+def model_tie(ctx, img_path, flav, reads, res, inp, L):
+    import subprocess
+    from . import fileiocorr
+    ofs = not (flav & 1)
+    bs = 488 if ofs else 512
+    for (p, f, lo, reqs) in reads[:8]:
+        hdr = f.get("hdr")
+        if hdr is None or not (res.get(lo) or ["?"])[0].startswith("ok"):
+            continue
+        ML = ["load %s %s" % (img_path, hdr), "open %s 1 0" % hdr]
+        for (li, off, ln) in reqs:
+            ML += ["seek %d" % off, "read %d" % ln]
+        pr = subprocess.run([fileiocorr.model_bin(ctx), "fileio", str(bs), "1" if ofs else "0"], input="\n".join(ML) + "\n", stdout=subprocess.PIPE, text=True,
+                            preexec_fn=common.big_stack)
+        mo = pr.stdout.splitlines()
+        if len(mo) != 3 * len(ML):
+            ctx.fail("corr", "model driver produced %d lines for %d calls on a foreign image" % (len(mo), len(ML)), dict(inp, model_input=ML), expected=3 * len(ML), actual=len(mo))
+            return
+        det = dict(inp, script=L, path="/".join(p), model_input=ML)
+        if not mo[3].startswith("r ok"):
+            ctx.fail("corr", "Model/FileIO cannot open a file of a well-formed foreign image that the library opens", det, expected="r ok", actual=mo[3])
+            continue
+        for qi, (li, off, ln) in enumerate(reqs):
+            ms, mr, mstate = mo[3 * (2 + 2 * qi)], mo[3 * (3 + 2 * qi)], mo[3 * (3 + 2 * qi) + 1]
+            rs = (res.get(li - 1) or ["?"])[0]
+            rr = (res.get(li) or ["?"])[0]
+            ctx.bump("model_tie_calls")
+            st, kv = common.kv(rs)
+            mst, mkv = common.kv(ms[2:])
+            if (st, kv.get("pos"), kv.get("size"), kv.get("eof")) != (mst, mkv.get("pos"), mkv.get("size"), mkv.get("eof")):
+                ctx.fail("corr", "seek to %d on a foreign image: result differs from Model/FileIO" % off, det, expected=ms, actual=rs)
+                break
+            st, kv = common.kv(rr)
+            mkv = common.kv(mr)[1]
+            want = {k: mkv.get(k) for k in ("n", "fnv", "pos", "size", "eof")}
+            got = {k: kv.get(k) for k in want}
+            if st != "ok" or want != got:
+                ctx.fail("corr", "read of %d bytes at %d on a foreign image: result differs from Model/FileIO" % (ln, off), det, expected=mr, actual=rr)
+                break
+            hs = (res.get(li + 1) or ["?"])[0]
+            if hs.startswith("ok") and "pinx=" in hs:
+                hst, hkv = common.kv(hs)
+                skv = common.kv(mstate)[1]
+                fields = fileiocorr.H_FIELDS + (fileiocorr.OFS_FIELDS if ofs else []) + ["xkey"]
+                if hkv.get("xkey") not in (None, "-1"):
+                    fields = fields + fileiocorr.X_FIELDS
+                diff = sorted(k for k in fields if skv.get(k) != hkv.get(k))
+                ctx.bump("model_tie_states")
+                if diff:
+                    ctx.fail("corr", "struct AdfFile after seek+read on a foreign image differs from Model/FileIO in %s" % ",".join(diff), det, expected=mstate, actual=hs)
+                    break
 
 
 def run(ctx):
